@@ -132,7 +132,10 @@ def doGpd (N D : Nat) (x : Array Rat) (perp : Rat) (o : Option (Array Rat)) : St
     let cmp :=
       if huge then "skip:range" else
       let res := (List.finRange N).map fun n =>
-        let Hn := fun b => rowEntropy lnR dblMin (DD n) (rowDense expR dblMin (DD n) n b) b
+        -- (the row is materialised once per evaluation; `rowEntropy` reads it three times)
+        let Hn := fun b =>
+          let arr := Array.ofFn (rowDense expR dblMin (DD n) n b)
+          rowEntropy lnR dblMin (DD n) (fun m => arr.getD m.1 0) b
         let (st, margin) := bisectTracked Hn lnPerp tol1em5
         let row := rowDense expR dblMin (DD n) n st.beta
         let s := rowSum dblMin row
@@ -153,9 +156,16 @@ def doGpk (N D K : Nat) (x : Array Rat) (perp : Rat) (oc : Option (Array Nat)) (
       let others := ((List.range N).filter (· ≠ n)).map fun m => trueSq D x n m
       let best := (others.mergeSort (· ≤ ·)).take K
       let nbOk := decide (ds.mergeSort (· ≤ ·) = best) && cs.all (· ≠ n) && decide (cs.eraseDups.length = cs.length)
-      -- model row from the distances of the returned columns, in the returned order
-      let dist : Fin K → Rat := fun m => ds.getD m.1 0
-      let Hn := fun b => rowEntropy lnR dblMin dist (rowKnn expR dist b) b
+      -- model row from the distances of the returned columns, in the returned order, as the routine sees them:
+      -- the tree's distance, then `kernelDistance` (squared again when the tree works on the metric)
+      let dist : Fin K → Rat := fun m =>
+        let c := cs.getD m.1 0
+        kernelDistance (vpDistance sqrtR ((List.range D).map fun d => x.getD (n * D + d) 0) ((List.range D).map fun d => x.getD (c * D + d) 0))
+      let distA := Array.ofFn dist
+      let dist : Fin K → Rat := fun m => distA.getD m.1 0
+      let Hn := fun b =>
+        let arr := Array.ofFn (rowKnn expR dist b)
+        rowEntropy lnR dblMin dist (fun m => arr.getD m.1 0) b
       let (st, margin) := bisectTracked Hn lnPerp tol1em5
       let row := rowKnn expR dist st.beta
       let s := rowSum dblMin row
@@ -213,36 +223,49 @@ partial def parseVp (cs : List Char) : Option (VpNode Rat × List Char) :=
     | _, _, _ => none
   | _ => none
 
-/-- the construction contract of `buildFromPoints(lower, upper)` checked on a dumped tree -/
-def vpWf (pt : Nat → List Rat) : VpNode Rat → Nat → Nat → Bool
+/-- the construction contract of `buildFromPoints(lower, upper)` checked on a dumped tree, in the tree's own distance
+    (`tol = 0` when that distance is exact) -/
+def vpWf (dist : List Rat → List Rat → Rat) (tol : Rat) (pt : Nat → List Rat) : VpNode Rat → Nat → Nat → Bool
   | .nil, lo, hi => lo == hi
   | .node idx thr l r, lo, hi =>
     if hi ≤ lo || idx ≠ lo then false
     else if hi - lo = 1 then l.isNil && r.isNil && decide (thr = 0)
     else
       let med := (hi + lo) / 2
+      let t := tol * (1 + absR thr)
       -- `threshold = distance(items[lower], items[median])` at construction time; the right subtree may later move
       -- that item inside `[median, upper)` (its own vantage swap), so: the threshold is attained in the right range,
       -- nothing left of the median is farther, nothing right of it nearer (the nth_element postcondition)
-      ((List.range' med (hi - med)).any fun j => decide (thr = vpDistance (pt lo) (pt j))) &&
-      ((List.range' (lo + 1) (med - lo - 1)).all fun j => decide (vpDistance (pt lo) (pt j) ≤ thr)) &&
-      ((List.range' med (hi - med)).all fun j => decide (thr ≤ vpDistance (pt lo) (pt j))) &&
-      vpWf pt l (lo + 1) med && vpWf pt r med hi
+      ((List.range' med (hi - med)).any fun j => decide (absR (thr - dist (pt lo) (pt j)) ≤ t)) &&
+      ((List.range' (lo + 1) (med - lo - 1)).all fun j => decide (dist (pt lo) (pt j) ≤ thr + t)) &&
+      ((List.range' med (hi - med)).all fun j => decide (thr - t ≤ dist (pt lo) (pt j))) &&
+      vpWf dist tol pt l (lo + 1) med && vpWf dist tol pt r med hi
+
+/-- the tree's distance with the square root perturbed by `eps` where it is not exact (the three runs `-eps, 0, +eps`
+    agree unless some pruning decision of the search is a tie up to `eps`) -/
+def distVar (eps : Rat) (a b : List Rat) : Rat :=
+  vpDistance (fun x => sqrtR x + (if sqrtExact x then 0 else eps)) a b
 
 def doVps (N D k : Nat) (x : Array Rat) (draws : Array Nat) (qs : List Nat) (oitems : Option (Array Nat)) (otree : Option String) (ores : Option String) : String :=
   let coords (i : Nat) : List Rat := (List.range D).map fun d => x.getD (i * D + d) 0
-  let brute (q : Nat) : List Rat := (((List.range N).map fun j => vpDistance (coords j) (coords q)).mergeSort (· ≤ ·)).take k
+  -- the k smallest TRUE squared distances (exact)
+  let brute (q : Nat) : List Rat := (((List.range N).map fun j => sqDistance (coords j) (coords q)).mergeSort (· ≤ ·)).take k
+  let eps : Rat := 1 / two 60
+  let dist0 := distVar 0
+  let tol : Rat := 1 / two 40
   -- the model's own tree (same draw stream, nth_element = stable sort) and its searches: hunting on the model side
   let pick (draw cnt : Nat) : Nat := ((draws.getD (draw % (max draws.size 1)) 0 % 1048576) * cnt) / 1048576
-  let (mroot, mseg, _) := vpBuild pick (N + 1) 0 0 ((List.range N).map fun i => (i, coords i))
+  let (mroot, mseg, _) := vpBuild dist0 pick (N + 1) 0 0 ((List.range N).map fun i => (i, coords i))
   let msegA := mseg.toArray
   let mitems (pos : Nat) : List Rat := (msegA.getD pos (0, [])).2
-  let mbad := qs.find? fun q => decide (((vpSearchTop mitems mroot (coords q) k).map (·.2)) ≠ brute q)
+  let mbad := qs.find? fun q =>
+    let got := (vpSearchTop dist0 mitems mroot (coords q) k).map fun e => sqDistance (mitems e.1) (coords q)
+    decide (got.mergeSort (· ≤ ·) ≠ brute q)
   let mknn := match mbad with | none => "ok" | some q => s!"BAD:q={q}"
   match oitems, otree >>= (fun s => parseVp s.toList), ores with
   | some items, some (root, _), some resS =>
     let pt (pos : Nat) : List Rat := coords (items.getD pos 0)
-    let wf := vpWf pt root 0 N
+    let wf := vpWf dist0 tol pt root 0 N
     let obs : List (Nat × List (Nat × Rat)) := (splitNonEmpty resS ";").filterMap fun s =>
       match s.splitOn ":" with
       | q :: rest =>
@@ -256,26 +279,34 @@ def doVps (N D k : Nat) (x : Array Rat) (draws : Array Nat) (qs : List Nat) (oit
         | _, _ => none
       | _ => none
     if obs.length ≠ qs.length then s!"cmp=BAD:unparsed-results mknn={mknn}" else
-    let judged := obs.map fun (ql : Nat × List (Nat × Rat)) =>
+    let judged : List (Nat × Bool × Bool × Bool × Bool × Bool × List Rat × List Rat) := obs.map fun (ql : Nat × List (Nat × Rat)) =>
       let q := ql.1
       let l := ql.2
-      let m := vpSearchTop pt root (coords q) k
-      let mIdx := m.map fun e => items.getD e.1 0
-      let dOk := decide (m.map (·.2) = l.map (·.2))
-      let iOk := decide (mIdx = l.map (·.1))
-      let consistent := l.all fun e => decide (vpDistance (coords e.1) (coords q) = e.2)
+      -- the model search replayed on the implementation's tree, with the square root nudged down / not / up
+      let run (e : Rat) := (vpSearchTop (distVar e) pt root (coords q) k).map fun en => (items.getD en.1 0, en.2)
+      let m0 := run 0
+      let stable := decide ((run (-eps)).map (·.1) = m0.map (·.1)) && decide ((run eps).map (·.1) = m0.map (·.1))
+      let close (a b : List Rat) : Bool := a.length == b.length && (a.zip b).all fun ab => decide (absR (ab.1 - ab.2) ≤ tol * (1 + absR ab.2))
+      let dOk := close (l.map (·.2)) (m0.map (·.2))
+      let iOk := decide (m0.map (·.1) = l.map (·.1))
+      let exact := decide (l.map (·.2) = m0.map (·.2))
+      let consistent := l.all fun e => decide (absR (dist0 (coords e.1) (coords q) - e.2) ≤ tol * (1 + absR e.2))
       -- oracle on the returned *items*: their true squared distances are the k smallest (whatever the tree reports)
-      let got := sortBy (fun a b => decide (a ≤ b)) (l.map fun e => vpDistance (coords e.1) (coords q))
+      let got := sortBy (fun a b => decide (a ≤ b)) (l.map fun e => sqDistance (coords e.1) (coords q))
       let knn := decide (got = brute q)
-      (q, dOk, iOk, consistent, knn, got, brute q)
-    let cmp := match judged.find? (fun j => !j.2.1 || !j.2.2.2.1) with
-      | none => s!"ok:E{judged.length}:A0"
+      (q, stable, dOk && consistent, iOk, exact, knn, got, brute q)
+    let usable := judged.filter (·.2.1)
+    let nExact := (usable.filter fun j => j.2.2.2.2.1).length
+    let nApprox := usable.length - nExact
+    let nSkip := judged.length - usable.length
+    let cmp := match usable.find? (fun j => !j.2.2.1) with
+      | none => s!"ok:E{nExact}:A{nApprox}:F{nSkip}"
       | some j => s!"BAD:q={j.1}"
-    let fid := (judged.filter (·.2.2.1)).length
-    let knn := match judged.find? (fun j => !j.2.2.2.2.1) with
+    let fid := (usable.filter (·.2.2.2.1)).length
+    let knn := match judged.find? (fun j => !j.2.2.2.2.2.1) with
       | none => s!"ok:{judged.length}"
-      | some j => s!"BAD:q={j.1}:impl={String.intercalate "," (j.2.2.2.2.2.1.map showRat)}:true={String.intercalate "," (j.2.2.2.2.2.2.map showRat)}"
-    s!"cmp={cmp} wf={if wf then "ok" else "BAD"} fid={fid}/{judged.length} knn={knn} mknn={mknn}"
+      | some j => s!"BAD:q={j.1}:impl={String.intercalate "," (j.2.2.2.2.2.2.1.map showRat)}:true={String.intercalate "," (j.2.2.2.2.2.2.2.map showRat)}"
+    s!"cmp={cmp} wf={if wf then "ok" else "BAD"} fid={fid}/{usable.length} knn={knn} mknn={mknn}"
   | _, _, _ => s!"cmp=noobs mknn={mknn}"
 
 /-! ### gradients -/
